@@ -12,12 +12,12 @@ def model(ctx, g, cls, wset, witness):
                    "ClassSet": "<- MC_ClassSet", "MaxInst": "2", "MaxRestore": "1",
                    "ScalarChoices": "<- MC_ScalarChoices", "Attacker": "<- MC_Attacker"})
     label = "MC_Sides[%s,%s,|w|=%d,256 side bytes x all elements + empty, fresh+restored]" % (g, cls, len(wset))
-    ctx.mc("MC_Sides", cfg(spec="SidesSpec", constants=consts,
+    ctx.mc("MC_Sides", cfg(view="ViewNoLast", spec="SidesSpec", constants=consts,
                            invariants=["SideRefusals", "NeverKeyForWrongSide", "AtMostOneKey", "KeyOnlyFromCanonical"]),
            label=label)
     if witness:
         ws = ["NoWitnessReflectedRestored", "NoWitnessOffSides", "NoWitnessKey"]
-        ctx.witness("MC_Sides", cfg(spec="SidesSpec", constants=consts, invariants=ws), ws, label=label)
+        ctx.witness("MC_Sides", cfg(view="ViewNoLast", spec="SidesSpec", constants=consts, invariants=ws), ws, label=label)
 
 
 def side_traces(uni, mp, g, ps, sides, tag, rng):
